@@ -359,6 +359,21 @@ def key_case(case):
 
     if build_round(False):
         build_round(True)
+    # a second input file read afterwards in the same process selects the same component and sets none of the keys:
+    # every one of them arrives with the default of the class (what the first file said is not remembered)
+    if setl and any(l != 'dflt' for l in setl.values()):
+        items2, want2 = base_items(sec, sel, files)
+        text2 = du.par_text(tree_for(sec, sel, items2))
+        with du.Spies() as sp2:
+            sp2.on(klass, label='K')
+            try:
+                generate(du.parser_for(d, text2), sec)
+            except Exception:
+                pass
+        calls2 = sp2.of('K')
+        if r.check(len(calls2) >= 1, 'reaches-constructor', 'second-file/build-raised/%s' % tag, text=text2):
+            check_arrival(r, 'second-file/' + tag, klass, klass.__init__, calls2[0][2], want2,
+                          dict((k, v[1]) for k, v in alpha.items()), {})
     return r
 
 
